@@ -220,13 +220,15 @@ def Pass.idle : Pass := ⟨id, id⟩
 
 mutual
 /-- one Transformer pass on a field type: `Mangle` on the field, then `maybeRecursivelyMangle`
-    (struct, or pointer / slice whose element is a struct; `[]time.Time` is recursed into because the
-    TextUnmarshaler test looks at the slice type — Facts.textSkipBeforeStrip — and loses its unexported fields) -/
+    (struct, or pointer / slice whose element is a struct).  TextUnmarshaler types are not recursed into: the
+    test is made on the field type and, since the repair of finding D34, again on the element type after the
+    pointer / slice is stripped (Facts.textSkipBeforeStrip, Facts.textSkipAfterStrip); without the second test a
+    `[]time.Time` field is recursed into and rebuilt from time.Time's exported fields, i.e. as `[]struct{}` -/
 def passTy (P : Pass) : Ty → Ty
   | .struct fs => .struct (passFields P fs)
   | .ptr (.struct fs) => .ptr (.struct (passFields P fs))
   | .slice (.struct fs) => .slice (.struct (passFields P fs))
-  | .slice (.text .time) => if Facts.textSkipBeforeStrip then .slice (.struct .nil) else P.leaf (.slice (.text .time))
+  | .slice (.text .time) => if Facts.textSkipAfterStrip then P.leaf (.slice (.text .time)) else .slice (.struct .nil)
   | t => P.leaf t
 def passFields (P : Pass) : Fields → Fields
   | .nil => .nil
@@ -239,7 +241,7 @@ def flatTy : Ty → Ty
   | .struct fs => .struct (flatFields fs)
   | .ptr (.struct fs) => .ptr (.struct (flatFields fs))
   | .slice (.struct fs) => .slice (.struct (flatFields fs))
-  | .slice (.text .time) => if Facts.textSkipBeforeStrip then .slice (.struct .nil) else .slice (.text .time)
+  | .slice (.text .time) => if Facts.textSkipAfterStrip then .slice (.text .time) else .slice (.struct .nil)
   | t => t
 /-- anonymous struct / pointer-to-struct fields are replaced by their fields (one level: a hoisted field
     that is itself anonymous is not hoisted again; the Transformer only recurses into its type) -/
